@@ -372,7 +372,8 @@ def contains(t, x):
 
 def named_of_kind(name, k):
     """Like fresh_of_kind but with stable, readable names (function parameters)."""
-    if k in ('int', 'var', 'enum'): return VInt(z3.Int(name))
+    if k in ('int', 'enum'): return VInt(z3.Int(name))
+    if k == 'var': return VLpVar(z3.Const(name, Var))
     if k == 'bool': return VBool(z3.Bool(name))
     if k == 'real': return VReal(z3.Real(name))
     if k == 'ref': return VRef(z3.Int(name))
